@@ -16,8 +16,16 @@
 //! * `build`      — build scripts executed on both builders; every output
 //!   is read by the OTHER codec and by `refimpl::wire`, compared with the
 //!   script, pointer-audited, and fed to `diff_message` again.
-//! * `build_regress` — ten hand-written scripts (sweep), the minimal forms of
-//!   the builder/compressor defects found (C19-X4 … X9).
+//!   Scripts also carry 0-8 header operations (`set_id`, `set_qr`,
+//!   `set_opcode`, the flag setters, `set_rcode`) in generated ORDER,
+//!   executed through `header_mut()` of both builders right after
+//!   construction, after the questions and after the last push; after every
+//!   operation raw bits and getters of the builder's header are compared with
+//!   a bit-level model (an operation replaces its own field only), and the
+//!   header octets of both outputs field by field with each other.
+//! * `build_regress` — eleven hand-written scripts (sweep), the minimal forms of
+//!   the builder/compressor defects found (C19-X4 … X9) and one header
+//!   operation order that replaces every multi-bit field over set neighbours.
 //!
 //! Normalised view compared: (section, owner labels, type, class, ttl,
 //! RDATA). RDATA of a type BOTH APIs model (`view::SHARED`) is compared
@@ -56,6 +64,7 @@
 //! compressor.
 
 use crate::engine::*;
+use crate::vensure;
 use crate::gen::message as gm;
 use crate::gen::*;
 use arbitrary::Unstructured;
@@ -161,6 +170,30 @@ fn run_script(s: &build::Script, ctx: &mut Ctx) -> CaseResult {
             ctx.class("script:more-than-64-distinct-owners");
         }
     }
+    // header operations: which orders does this script exercise?
+    if !s.hdr_ops.is_empty() {
+        ctx.class("script:header-ops");
+        let (mut id, mut fl) = (s.id, s.flags);
+        let mut touched = 0u16;
+        for (phase, op) in &s.hdr_ops {
+            let own = op.mask();
+            let multi = own.count_ones() > 1;
+            if multi && fl & !own & !0x0040 != 0 {
+                ctx.class(format!("script:header-ops:{}-over-nonzero-other-fields", op.name()));
+                if own == 0x7800 && fl & 0x07BF != 0 {
+                    ctx.class("script:header-ops:set_opcode-over-nonzero-lower-fields");
+                }
+            }
+            if touched & own != 0 {
+                ctx.class("script:header-ops:field-set-again");
+            }
+            touched |= own;
+            if *phase >= 1 && !(s.questions.is_empty() && s.items.is_empty()) {
+                ctx.class("script:header-ops:after-pushes");
+            }
+            op.model(&mut id, &mut fl);
+        }
+    }
     // new builder
     let nb = build::build_new(&s, ctx)?;
     if nb.expect.failed_pushes > 0 {
@@ -192,6 +225,16 @@ fn run_script(s: &build::Script, ctx: &mut Ctx) -> CaseResult {
         ctx.class("old:output-longer-than-16384");
     }
     build::check_output("old", &ob, ctx)?;
+    // the same header operations on both builders: same header octets, field
+    // by field (the only difference the script itself makes is TC set by the
+    // new builder's truncate(), which the established builder does not have)
+    if nb.bytes.len() >= 4 && ob.bytes.len() >= 4 {
+        let nf = u16::from_be_bytes([nb.bytes[2], nb.bytes[3]]);
+        let of = u16::from_be_bytes([ob.bytes[2], ob.bytes[3]]);
+        let allowed = nb.expect.flags ^ ob.expect.flags;
+        vensure!(nb.bytes[..2] == ob.bytes[..2], "build:header:builders-disagree:id", "new builder id {:02x?}, established builder id {:02x?}; header operations {:?}", &nb.bytes[..2], &ob.bytes[..2], s.hdr_ops);
+        vensure!((nf ^ of) == allowed, "build:header:builders-disagree:flags", "initial flags {:04x}, header operations {:?}: new builder {nf:04x}, established builder {of:04x}; fields that differ: {:?}", s.flags, s.hdr_ops, build::flag_fields_differing(nf ^ allowed, of));
+    }
     let mut old_ptrs = 0;
     if s.old_compressor != 0 {
         let oc = build::build_old(&s, s.old_compressor)?;
@@ -308,6 +351,8 @@ fn health(c: &BTreeMap<String, u64>, _t: bool) -> Result<(), String> {
         "item:name:both-accept:compressed", "item:name:both-reject", "item:question:both-accept", "item:record:both-accept", "item:record:both-reject:rdata",
         "opt-option-10:both-accept", "opt-option-10:both-reject", "opt-option-15:both-accept", "opt-option-15:both-reject",
         "script:pads-to-16384", "script:size-limit", "script:more-than-32-distinct-owners", "script:more-than-64-distinct-owners",
+        "script:header-ops", "script:header-ops:set_opcode-over-nonzero-other-fields", "script:header-ops:set_opcode-over-nonzero-lower-fields", "script:header-ops:set_rcode-over-nonzero-other-fields",
+        "script:header-ops:field-set-again", "script:header-ops:after-pushes",
         "script:old-compressor-1", "script:old-compressor-2", "script:old-compressor-3",
         "new:output-has-pointers", "new:records-after-16384", "new:pointers-and-records-after-16384", "new:pointer-target-in-last-256-addressable",
         "new:push-failed-then-continued", "new:compressor-reused", "new:truncate-called", "old:output-has-pointers", "old:output-longer-than-16384",
@@ -329,7 +374,7 @@ fn health(c: &BTreeMap<String, u64>, _t: bool) -> Result<(), String> {
 pub fn prop() -> Option<Prop> {
     Some(Prop {
         id: "C19",
-        rule: "differential case = message octets (or octets + offset + item kind); non-trivial = both codecs accepted >= 1 item and the message had >= 1 compression pointer or >= 1 RDATA of a type both APIs model, or both codecs rejected the same item after >= 1 accepted item or past its name; distinct by octets (+ offset/kind). build case = script (questions, records of shared/unknown types, EDNS, padding across 16384, size limit, failed pushes, truncate, compressor reuse) executed on the new builder and on the established builder without and with each compressor; non-trivial = >= 1 item and (a pointer was emitted or a record of a shared type was pushed); distinct by script",
+        rule: "differential case = message octets (or octets + offset + item kind); non-trivial = both codecs accepted >= 1 item and the message had >= 1 compression pointer or >= 1 RDATA of a type both APIs model, or both codecs rejected the same item after >= 1 accepted item or past its name; distinct by octets (+ offset/kind). build case = script (questions, records of shared/unknown types, EDNS, padding across 16384, size limit, failed pushes, truncate, compressor reuse, 0-8 header setter calls in generated order before/between/after the pushes) executed on the new builder and on the established builder without and with each compressor; non-trivial = >= 1 item and (a pointer was emitted or a record of a shared type was pushed); distinct by script",
         assumptions: &[
             "exclusions E1-E4 of the module table (pointer into the header / into the name's own segment, compressed names inside SRV/DNAME/RRSIG/NSEC RDATA, non-UTF-8 extended-error text) are predicates on the input evaluated with refimpl::wire; such items are counted, not compared",
             "RDATA acceptance is compared only for the 20 types both APIs model; for all others the two unknown views must carry the octets of the message",
